@@ -870,13 +870,21 @@ impl<'s, X: Item> VecExec<'s, $K, X> {
                 }
                 match r {
                     Ok(v) => {
-                        // elements pulled beyond capacity must have been dropped by from_iter
-                        for g in pulled.iter().skip(n) {
-                            if let Some(id) = self.all_dropped(g.iter()) {
-                                tok::raise(V7_LEAK, format!("from_iter pulled surplus element id {} and neither stored nor dropped it", id));
-                                std::mem::forget(v);
-                                return true;
-                            }
+                        // A vector holds N elements, so from_iter has no use for an (N+1)-th one. The
+                        // unchanged tree pulls at most N; a source handed over by reference
+                        // (`it.by_ref().collect()`, the idiom for cutting a stream into consecutive
+                        // vectors) keeps the rest. Pulling more and destroying it makes the caller lose
+                        // elements that were not transferred anywhere (Zip's documented footgun when
+                        // the source is the left operand).
+                        if pulled.len() > n {
+                            let extra = pulled.len() - n;
+                            let gone = pulled.iter().skip(n).all(|g| self.all_dropped(g.iter()).is_none());
+                            tok::raise(
+                                if gone { V8_UNEXPECTED_DROP } else { V7_LEAK },
+                                format!("from_iter pulled {} element(s) beyond the vector's capacity from its source and {} them: the source loses elements that were not transferred", extra, if gone { "destroyed" } else { "neither stored nor destroyed" }),
+                            );
+                            std::mem::forget(v);
+                            return true;
                         }
                         let seq: Vec<Grp> = pulled.iter().take(n).copied().collect();
                         self.settle_from_iter(v, &seq, "from_iter");
